@@ -984,6 +984,7 @@ class Emitter:
     def call(s, f, bn, x, r, decl, goto):
         out = []
         cal = x.callee
+        if cal.kind == 'global' and cal.name in s.M.aliases: cal = V('global', cal.ty, name=s.M.aliases[cal.name])
         if cal.kind == 'global':
             dn = s.M.dem.get(cal.name) or s.M.dem_decl.get(cal.name, cal.name)
             fatal = None
@@ -1076,6 +1077,10 @@ def load(path):
         raw = [n[1:].strip('"') for n in names]
         out = subprocess.run(['llvm-cxxfilt'], input='\n'.join(raw), capture_output=True, text=True, check=True).stdout.split('\n')
         return dict(zip(names, out))
+    M.aliases = {}
+    for gname, line in M.globals.items():
+        m_ = re.search(r' alias [^@]*(@"(?:[^"\\]|\\.)*"|@[-a-zA-Z$._0-9]+)\s*$', line)
+        if m_: M.aliases[gname] = m_.group(1)
     M.dem = dem(list(M.funcs.keys()))
     M.dem_decl = dem(list(M.decls.keys()))
     return M
